@@ -114,6 +114,48 @@ Fixpoint grun_chain (O : oracles) (o : opts) (last : option text) (l : list req)
   | r :: l' => let ob := grun_req O o last r in ob :: grun_chain O o (next_last last ob) l'
   end.
 
+(* ------------------------------------------------------------------ the factory layer (regenerated:
+   gen_signed_factory, gen_config, gen_canon_loads / gen_canon_dumps of Gen/Prog_C10.v) *)
+(* loads / dumps of the serializer object the factory built *)
+Fixpoint ser_loads (O : oracles) (d : serdesc) (c : text) : option jv :=
+  match d with
+  | SSigned sec salt => signed_loads O (salted_key salt sec) c
+  | SCanon d' => gen_canon_loads O (ser_loads O d') c
+  end.
+Fixpoint ser_dumps (O : oracles) (d : serdesc) (p : jv) : text :=
+  match d with
+  | SSigned sec salt => signed_dumps O (salted_key salt sec) p
+  | SCanon d' => gen_canon_dumps (ser_dumps O d') p
+  end.
+(* SignedCookieSessionFactory(..) -> the session class with its options converted at configuration time *)
+Inductive facres := FacOk (o : opts) | FacRaise | FacUnm.
+Definition opts_of (k : text) (c : cfg) : opts :=
+  {| key := k; timeout := c_timeout c; reissue := c_reissue c; soe := py_truth (c_soe c) |}.
+Definition gfactory (a : fargs) : facres :=
+  let b := gen_signed_factory a in
+  match gen_config b with
+  | CfgOk c => FacOk (opts_of (ser_key (b_ser b)) c)
+  | CfgRaise => FacRaise
+  | CfgUnm => FacUnm
+  end.
+(* declarative reading of the documented options: None stays None (never expires / never reissued), everything else
+   goes through int() ONCE at configuration time -- 0, False and 0.0 are the number 0, not "unset" -- ; the key is
+   salt ++ secret (latin-1, else UTF-8), an absent or empty salt being the empty string; set_on_exception counts by truth value *)
+Definition spec_factory (a : fargs) : facres :=
+  match cfg_conv (fa_max_age a), cfg_conv (fa_reissue a), cfg_conv (fa_timeout a) with
+  | OOk _, OOk r, OOk t =>
+      FacOk {| key := salted_key (fa_salt a) (fa_secret a); timeout := t; reissue := r; soe := py_truth (fa_soe a) |}
+  | OUnm, _, _ => FacUnm
+  | ORaise, _, _ => FacRaise
+  | OOk _, OUnm, _ => FacUnm
+  | OOk _, ORaise, _ => FacRaise
+  | OOk _, OOk _, OUnm => FacUnm
+  | OOk _, OOk _, ORaise => FacRaise
+  end.
+(* the max-age attribute the cookies will carry *)
+Definition gfactory_max_age (a : fargs) : option (option Z) :=
+  match gen_config (gen_signed_factory a) with CfgOk c => Some (c_max_age c) | _ => None end.
+
 (* ================================================================== declarative specification *)
 (* The property speaks about a store: what the cookie most recently set holds.  No cookie
    bytes, no signature, no wrappers here. *)
@@ -273,6 +315,14 @@ Definition inv_on (O : oracles) (o : opts) (W : dict -> Prop) (last : option tex
    (see the _refuted theorems), hence this premise of the chain theorems *)
 Definition chain_ok (O : oracles) (o : opts) (l : list req) : Prop :=
   Forall (fun r => match rsrc r with SAltered c => valid_signed O (key o) c = false | _ => True end) l.
+
+(* once only the canonical text of a cookie is accepted (canonical_check), that premise shrinks to unforgeability:
+   an altered text is not the signed encoding of ANY byte string under the key *)
+Definition unforged (O : oracles) (o : opts) (l : list req) : Prop :=
+  Forall (fun r => match rsrc r with
+                   | SAltered c => forall m, c <> b64 O (mac O (key o) m ++ m)
+                   | _ => True
+                   end) l.
 
 Definition ok_at (ob : robs) (sp : option sobs) : Prop :=
   match sp with None => True | Some b => proj ob = Some b end.
@@ -684,11 +734,22 @@ Definition get_req (v : val) : option req :=
   | _ => None
   end.
 
-Definition get_opts (v : val) : option opts :=
+Definition get_cfgv (v : val) : option cfgv :=
   match v with
-  | VL [VT k; t; r; VI e] =>
-      olet t := get_optZ t in olet r := get_optZ r in
-      Some {| key := k; timeout := t; reissue := r; soe := negb (Z.eqb e 0) |}
+  | VL [] => Some CNone
+  | VL [VI 0%Z; VI z] => Some (CInt z)
+  | VL [VI 1%Z; VI b] => Some (CBool (negb (Z.eqb b 0)))
+  | VL [VI 2%Z; VI q] => Some (CFlt q)
+  | VL [VI 3%Z; VT s] => Some (CStr s)
+  | _ => None
+  end.
+(* the arguments given to SignedCookieSessionFactory, as given (not converted) *)
+Definition get_fargs (v : val) : option fargs :=
+  match v with
+  | VL [VT sec; salt; m; t; r; e] =>
+      olet salt := get_opt get_text salt in olet m := get_cfgv m in olet t := get_cfgv t in
+      olet r := get_cfgv r in olet e := get_cfgv e in
+      Some {| fa_secret := sec; fa_salt := salt; fa_max_age := m; fa_timeout := t; fa_reissue := r; fa_soe := e |}
   | _ => None
   end.
 
@@ -735,19 +796,38 @@ Definition put_sobs (ob : option sobs) : val :=
                       put_dict (b_end b); vN (b_fin b)]]
   end.
 
-(* case = [[ds; macs; unb64s; desers]; opts; requests]
-   answer = [observations of the program regenerated from the source; spec observations] *)
+(* case = [[ds; macs; unb64s; desers]; factory arguments; requests]
+   answer = [observations of the program regenerated from the source; spec observations; max-age attribute]
+            [1; spec?] the factory call raises   [2] outside the modelled domain *)
+Definition put_optZ (x : option Z) : val := match x with Some z => VL [VI z] | None => VL [] end.
 Definition run_C10 (v : val) : val :=
   ret_or_bad (
     match v with
-    | VL [VL [VI n; macs; unbs; dess]; o; rs] =>
+    | VL [VL [VI n; macs; unbs; dess]; a; rs] =>
         olet macs := get_list_of get_mac_row macs in
         olet unbs := get_list_of get_unb_row unbs in
         olet dess := get_list_of get_des_row dess in
-        olet o := get_opts o in
+        olet a := get_fargs a in
         olet rs := get_list_of get_req rs in
         let O := table_oracles (Z.to_nat n) macs unbs dess in
-        Some (VL [VL (map put_robs (grun_chain O o None rs));
-                  VL (map put_sobs (spec_chain O o None true rs))])
+        match gfactory a with
+        | FacRaise =>
+            (* the factory call raises; if the documented reading of the options says it should not, the
+               specification of the chain is still reported (the judge then sees a deviation) *)
+            Some (VL [VI 1; match spec_factory a with
+                            | FacOk o' => VL [VL (map put_sobs (spec_chain O o' None true rs))]
+                            | _ => VL []
+                            end])
+        | FacUnm => Some (VL [VI 2])
+        | FacOk o =>
+            (* the specification reads the options DECLARATIVELY (spec_factory), never through the regenerated
+               factory layer: a changed conversion must show as a deviation, not move the specification along *)
+            Some (VL [VL (map put_robs (grun_chain O o None rs));
+                      match spec_factory a with
+                      | FacOk o' => VL (map put_sobs (spec_chain O o' None true rs))
+                      | _ => VL (map (fun _ => VL []) rs)
+                      end;
+                      match gfactory_max_age a with Some m => put_optZ m | None => VL [] end])
+        end
     | _ => None
     end).
